@@ -186,6 +186,79 @@ let c18_judge c obs =
     else "ok"
   | _ -> "bad observation-shape"
 
+(* ---------------- C19 ---------------- *)
+let c19_strs = ["hello"; "<b>bold</b> & more"; "h\xc3\xa9llo w\xc3\xb6rld \xe2\x9c\x93"; "tab\tand\nnewline"; ""; "quote\"s' and \\"; "\xe2\x80\xa8sep"; "a=b&c=d"]
+let bytes_of s = List.init (String.length s) (fun i -> n_of_int (Char.code s.[i]))
+let c19_run c =
+  let preset_of = function A "none" -> None | p -> Some (str p) in
+  let sct = function Some c -> sstr c | None -> sstr [] in
+  let log_status w = match w.log with WH c :: _ -> int_of_z c | _ -> 0 in
+  let log_body w = List.concat (List.map (function W b -> b | _ -> []) w.log) in
+  match c with
+  | L [A "h"; A helper; st; vk; preset; encj; encx] ->
+    let status = z_of_int (int st) and vk = int vk and preset = preset_of preset in
+    let sbytes = bytes_of (List.nth c19_strs (vk mod 8)) in
+    let r0 = rsp_init preset [] in
+    let fin r = ensure r.rw in
+    let plain ct data = let r = ctx_blob status ct data r0 in (r, fin r) in
+    let out r w body nerr loc = L [A "h"; sint (log_status w); sct r.ctype; body; sint nerr; sstr loc] in
+    (match helper with
+     | "text" -> let (r, w) = plain ct_text sbytes in out r w (sstr (log_body w)) 0 []
+     | "html" -> let (r, w) = plain ct_html sbytes in out r w (sstr (log_body w)) 0 []
+     | "jsonbytes" -> let (r, w) = plain ct_json sbytes in out r w (sstr (log_body w)) 0 []
+     | "blob" -> let (r, w) = plain (str_of_ascii "application/x-blob") sbytes in out r w (sstr (log_body w)) 0 []
+     | "stream" -> let (r, w) = plain (str_of_ascii "application/x-stream") sbytes in out r w (sstr (log_body w)) 0 []
+     | "nocontent" -> let r = ctx_no_content r0 in out r (fin r) (sstr []) 0 []
+     | "redirect" ->
+       let code = if int st >= 300 && int st < 400 then status else z_of_int 301 in
+       let r = { r0 with rw = write_header code r0.rw } in out r (fin r) (sstr []) 0 (str_of_ascii "/to")
+     | "httperror" ->
+       let r = ctx_http_error sbytes status r0 in
+       let r = { r with ctype = Some ct_text } in     (* http.Error sets its own Content-Type *)
+       out r (fin r) (sstr (log_body (fin r))) 0 []
+     | "json" | "jsonp" | "xml" ->
+       let ok = if helper = "xml" then bool encx else bool encj in
+       let enc _ = if ok then Some [n_of_int 120] else None in
+       let f = match helper with
+         | "json" -> render_json enc ()
+         | "jsonp" -> render_jsonp enc (str_of_ascii "cb") ()
+         | _ -> render_xml enc [n_of_int 60] () in
+       let r = respond status f r0 in
+       let body = if not ok then L [A "enc-error"]
+         else if helper = "xml" && vk mod 6 <> 2 then L [A "dec"; A "na"] else L [A "dec"; A "ok"] in
+       out r (fin r) body (int_of_nat r.nerr) []
+     | h -> failwith ("c19: bad helper " ^ h))
+  | L [A "auto"; acc; vk; preset; encj; encx] ->
+    let vk = int vk and preset = preset_of preset in
+    (* httpreq.ParseAccept: split at ',', keep the text before ';', trim, drop empties *)
+    let rec split acc cur = function
+      | [] -> List.rev (List.rev cur :: acc)
+      | c :: r -> if int_of_n c = 44 then split (List.rev cur :: acc) [] r else split acc (c :: cur) r in
+    let rec upto = function [] -> [] | x :: r -> if int_of_n x = 59 then [] else x :: upto r in
+    let accepts = List.filter (fun a -> a <> []) (List.map (fun p -> trim_space (upto p)) (split [] [] (str acc))) in
+    let is_str = vk mod 6 = 0 || vk mod 6 = 3 in
+    let sval = List.nth c19_strs ((vk / 6) mod 8) in
+    let ct d = match preset with Some c -> sstr c | None -> sstr d in
+    (match auto_pick accepts with
+     | None -> L [A "auto"; ct []; A "empty"; A "t"]
+     | Some KHtml -> L [A "auto"; ct []; A "empty"; A "f"]
+     | Some KJson -> if bool encj then L [A "auto"; ct ct_json; A "json"; A "f"] else L [A "auto"; ct ct_json; A "empty"; A "t"]
+     | Some KXml -> if bool encx then L [A "auto"; ct ct_xml; A "xml"; A "f"] else L [A "auto"; ct ct_xml; A "xml"; A "t"]
+     | Some KText ->
+       if is_str then L [A "auto"; ct ct_text; A (if sval = "" then "empty" else "text"); A "f"]
+       else if bool encj then L [A "auto"; ct ct_text; A "json"; A "f"]
+       else L [A "auto"; ct []; A "empty"; A "t"])
+  | x -> failwith ("c19: bad case " ^ to_string x)
+let c19_judge c obs =
+  let e = c19_run c in
+  if to_string e = to_string obs then "ok" else
+    (match c, e, obs with
+     | L (A "h" :: A h :: _), L [_; s1; c1; b1; n1; _], L [_; s2; c2; b2; n2; _] ->
+       "bad " ^ (if to_string s1 <> to_string s2 then "status" else if to_string c1 <> to_string c2 then "content-type"
+                 else if to_string b1 <> to_string b2 then "body" else if to_string n1 <> to_string n2 then "error-reporting" else "location") ^ " helper=" ^ h
+     | L (A "h" :: A h :: _), _, _ -> "bad helper-panics helper=" ^ h
+     | _ -> "bad negotiation") ^ " expected=" ^ to_string e
+
 (* judge by spec equality: the observation must be exactly what the spec function yields *)
 let judge_eq spec c obs =
   let e = to_string (spec c) in
@@ -198,6 +271,7 @@ let rec model_of p = match p with
   | "C20" -> c20_run false
   | "C17" -> c17_model
   | "C18" -> c18_model
+  | "C19" -> c19_run
   | "C16" -> C16.model
   | "C15" -> C15.model
   | "C04" | "C05" | "C12" | "C09" | "C10" -> Rp.model
@@ -214,6 +288,7 @@ let judge_of = function
   | "C20" -> c20_judge
   | "C17" -> c17_judge
   | "C18" -> c18_judge
+  | "C19" -> c19_judge
   | "C16" -> C16.judge
   | "C15" -> C15.judge
   | "C12" -> Rp.c12_judge
